@@ -68,14 +68,14 @@ def check_case(ctx, case):
     rec = BodyRecorder()
     ns = {"__body": rec}
     src, ns = gs.render(params, fname, kind=kind, ns=ns)
-    raw = gs.compile_fn(src, ns, fname)
+    raw = gs.compile_fn(src, ns, fname, postponed=bool(case.get("postponed", True)))
     if kind == "lambda":
-        raw.__annotations__ = {p["name"]: gs.ann_object(p["ann"], i) for i, p in enumerate(params) if gs.ann_object(p["ann"], i) is not None}
+        raw.__annotations__ = {p["name"]: gs.ann_object_resolved(p["ann"], i) for i, p in enumerate(params) if gs.ann_object(p["ann"], i) is not None}
     # twin for the differential: a second compilation of the same source with its own recorder
     rec0 = BodyRecorder()
     ns0 = dict(ns)
     ns0["__body"] = rec0
-    raw0 = gs.compile_fn(src, ns0, fname)
+    raw0 = gs.compile_fn(src, ns0, fname, postponed=bool(case.get("postponed", True)))
     info = f"source={src!r} checker={case['checker']} no_type_check={case['ntc']}"
     model_disabled = case["initial"][1]
     set_valid(case, case["initial"][0])
@@ -290,6 +290,7 @@ def c19_case(draw):
         "params": params, "callable": kind, "fname": draw(st.sampled_from(["f", "g", "T0"])),
         "checker": draw(st.sampled_from(["typeguard", "beartype"])),
         "ntc": draw(st.sampled_from(["none", "none", "none", "above", "below", "late-below"])),
+        "postponed": draw(st.sampled_from([False, True])),
         "initial": list(draw(valid)), "ops": ops,
     }
 
